@@ -21,6 +21,9 @@ const (
 	Gzip         Codec = 2
 )
 
+// OptStyle selects how the glue passes the writer options (see oracle.Case).
+var OptStyle int
+
 func (c Codec) String() string { return [...]string{"uncompressed", "snappy", "gzip"}[c] }
 
 // Writer is the generated ParquetWriter behind interface{} records.
